@@ -23,7 +23,7 @@ DESIGN_REF = '6.3'
 TECHNIQUE = ('decision-table product (exception source x want form x flags x flag carrier x position) enumerated '
              'exhaustively, cells instantiated with Hypothesis-drawn messages; oracle table written from the statement, '
              'true exception text from CPython')
-LEVEL_TEXT = ("Every cell of the table exception-source (11, incl. SyntaxError and IndentationError raised at run time and an exception group) x want-form (10) x flag-set (8) x carrier (3) x position (3) is "
+LEVEL_TEXT = ("Every cell of the table exception-source (13, incl. SyntaxError and IndentationError raised at run time, an exception group and pytest's failure outcomes) x want-form (12, incl. a traceback that names only the type) x flag-set (8) x carrier (3) x position (3) is "
               "visited (quick: with two fixed messages; thorough: plus tens of thousands of drawn messages) and the verdict, "
               "the recorded exception class and the trace of statements before/after are compared with the table written "
               "from the statement. Fault-enumeration style exploration of a finite table with sampled parameters.")
@@ -38,8 +38,10 @@ ASSUMPTIONS = [
     "traceback.format_exception_only gives the final line(s) CPython prints for the exception",
 ]
 
-SOURCES = ['builtin', 'nomsg', 'qualified', 'qualified2', 'userdef', 'library', 'helper', 'noraise', 'syntax_eval', 'indent_exec', 'group']
-FORMS = ['none', 'exact', 'stack', 'innermost', 'wrongmsg', 'wrongtype', 'prose', 'bare', 'ellipsis', 'unqualified']
+SOURCES = ['builtin', 'nomsg', 'qualified', 'qualified2', 'userdef', 'library', 'helper', 'noraise', 'syntax_eval', 'indent_exec', 'group',
+           'pytest_fail', 'pytest_raises']
+OUTCOME_SOURCES = ('pytest_fail', 'pytest_raises')
+FORMS = ['none', 'exact', 'stack', 'innermost', 'wrongmsg', 'wrongtype', 'prose', 'bare', 'ellipsis', 'unqualified', 'typeonly', 'typecolon']
 FLAGSETS = [(), ('IED',), ('-ELL',), ('IW',), ('IED', '-ELL'), ('IED', 'IW'), ('-ELL', 'IW'), ('IED', '-ELL', 'IW')]
 CARRIERS = ['block', 'inline', 'default']
 POSITIONS = ['first', 'middle', 'last']
@@ -75,6 +77,11 @@ def raising_lines(source, msg, k):
         return [], "exec('if 1:\\nx = ' + {})".format(repr(str(len(msg))))
     if source == 'group':
         return [], 'raise ExceptionGroup({}, [ValueError(1), KeyError(2)])'.format(m)
+    if source == 'pytest_fail':
+        # pytest's failure outcome is a BaseException: it must leave run() or fail the doctest, never pass silently
+        return ['import pytest'], 'pytest.fail({})'.format(m)
+    if source == 'pytest_raises':
+        return ['import pytest'], 'exec("with pytest.raises(KeyError):\\n    pass")'
     raise KeyError(source)
 
 
@@ -82,7 +89,10 @@ def true_final(source, msg, k):
     """final traceback text printed by CPython for the raising statement, or None"""
     setup, line = raising_lines(source, msg, k)
     ns = {'T': []}
-    out, value, is_expr, exc = pyexec.exec_unit('\n'.join(setup + [line]), ns)
+    try:
+        out, value, is_expr, exc = pyexec.exec_unit('\n'.join(setup + [line]), ns)
+    except BaseException as ex:   # noqa  (pytest outcome exceptions are not Exceptions)
+        exc = ex
     if exc is None:
         return None, None
     text = traceback.format_exception_only(type(exc), exc)[-1]
@@ -129,6 +139,15 @@ def want_lines(form, final, fallback_final):
         if '.' not in tp:
             return None
         return [HEADER] + (tp.split('.')[-1] + rest).split('\n')
+    if form == 'typeonly':
+        # the traceback names the right type but no message at all
+        if not rest:
+            return None
+        return [HEADER, tp]
+    if form == 'typecolon':
+        if not rest:
+            return None
+        return [HEADER, tp + ':']
     raise KeyError(form)
 
 
@@ -143,6 +162,8 @@ def expected(source, form, flags):
         if iw:
             return None     # the want is ignored by request; not decided by the statement
         return 'fail_gotwant'
+    if source in OUTCOME_SOURCES:
+        return 'fail_any_or_propagate'
     if form in ('none', 'prose', 'bare'):
         return 'fail_exc'
     if form in ('exact', 'stack', 'innermost'):
@@ -154,6 +175,9 @@ def expected(source, form, flags):
     if form == 'ellipsis':
         return 'pass' if (ell or ied) else 'fail_any'
     if form == 'unqualified':
+        return 'pass' if ied else 'fail_any'
+    if form in ('typeonly', 'typecolon'):
+        # an absent message is a different message: only IGNORE_EXCEPTION_DETAIL makes it pass
         return 'pass' if ied else 'fail_any'
     raise KeyError(form)
 
@@ -215,7 +239,13 @@ def run(doc, default_state):
         ex.global_namespace['T'] = trace
         if default_state:
             ex.config['default_runtime_state'] = dict(default_state)
-        summary = ex.run(verbose=0, on_error='return')
+        try:
+            summary = ex.run(verbose=0, on_error='return')
+        except BaseException as e:   # noqa
+            if type(e).__name__ in ('Failed', 'XFailed') and not isinstance(e, Exception):
+                summary = {'passed': False, 'failed': True, 'skipped': False, 'exc_info': (type(e), e, None), 'propagated': True}
+            else:
+                raise
     return summary, trace, ex
 
 
@@ -254,6 +284,10 @@ def check_case(case, ctx):
                         'the exception must not be hidden (want form {!r}, flags {}) but the doctest {}\n{}'.format(
                             form, flags, 'passed' if summary['passed'] else 'was skipped', doc))
     et, ev, _ = summary['exc_info']
+    if exp == 'fail_any_or_propagate':
+        if trace != trace_before + mid:
+            raise Violation('trace_after_failure', 'statements executed {} expected {}\n{}'.format(trace, trace_before + mid, doc))
+        return exp
     if exp == 'fail_exc':
         if et.__name__ != excname or isinstance(ev, checker.GotWantException):
             raise Violation('wrong_exception_recorded:' + cell,
